@@ -90,6 +90,8 @@ def build(seed, pi, subset):
         "zoq/saved.zoq": "# W #t\n#\n" + note_lines,
         "unrelated.txt": "not a zorg file " + " ".join(els) + "\n",
         "endings/utf8.zo": "# caf\u00e9 \u2014 \u2713 page\n\n" + note_lines + joined + "- 240121#LU last line \u2713 of the page\n",
+        # a page saved as ISO-8859-1 (the lone surrogate stands for the raw byte 0xE9): not valid UTF-8
+        "endings/latin1.zo": "# caf\udce9 page\n\n" + note_lines + joined + "- 240122#LV last line caf\udce9\n",
         # not z-files either, although '.zo' occurs in their names
         "other.zo~": page, "notes.zox": page, "deep/inner.zo.bak": page, "deep/.hidden.zo.tmp": page,
         # bytes a line-by-line rewrite would normalise: no final newline, two final
